@@ -43,6 +43,31 @@ TReset ==
   /\ cur' = None /\ nextVer' = 1 /\ nextTxn' = 0 /\ acked' = 0 /\ visible' = 0
   /\ crashes' = 0 /\ grows' = 0 /\ bad' = FALSE /\ explicit' = FALSE
 
+\* a crash image is opened (harness/src/bin/recio.rs): the header on the storage, and whether the trees of each slot
+\* verify (slot i holds version i, one page write each, on the storage iff the independent decoder says they verify)
+TRReset ==
+  /\ Ev("rreset")
+  /\ LET d == Line.disk IN
+     /\ hdr' = [primary |-> d.primary, tpc |-> d.tpc, rec |-> d.rec, slots |-> <<Slot(d.slots[1].txn, 1), Slot(d.slots[2].txn, 2)>>]
+     /\ dgod' = [primary |-> d.primary, tpc |-> d.tpc, rec |-> d.rec]
+     /\ dslots' = <<Slot(d.slots[1].txn, 1), Slot(d.slots[2].txn, 2)>>
+  /\ dpages' = {<<i, 1>> : i \in {j \in {1, 2} : Line.serv[j]}}
+  /\ pend' = <<>> /\ vparts' = (0 :> 0 @@ 1 :> 1 @@ 2 :> 1 @@ 3 :> 0) /\ parent' = (0 :> 0 @@ 1 :> 0 @@ 2 :> 0 @@ 3 :> 0)
+  /\ gone' = (0 :> {} @@ 1 :> {} @@ 2 :> {} @@ 3 :> {}) /\ pins' = (0 :> {} @@ 1 :> {} @@ 2 :> {} @@ 3 :> {})
+  /\ cur' = [ver |-> 0, kind |-> "rec", stage |-> "r_final", sp |-> FALSE]
+  /\ nextVer' = 3 /\ nextTxn' = 0 /\ acked' = 0 /\ visible' = 0
+  /\ crashes' = 0 /\ grows' = 0 /\ bad' = FALSE /\ explicit' = FALSE
+
+\* the open returned: the recovery has run to its end, begin_writable() included, nothing is unsynced, and the header
+\* in memory is the specification's
+TROpen ==
+  /\ Ev("ropen") /\ cur.stage = "idle" /\ pend = <<>> /\ ~bad
+  /\ LET m == Line.hdr IN
+       /\ m.primary = hdr.primary /\ m.tpc = hdr.tpc /\ m.rec = hdr.rec /\ m.rec
+       /\ m.txn[1] = hdr.slots[1].txn /\ m.txn[2] = hdr.slots[2].txn
+  /\ Servable(hdr.slots[hdr.primary].ver, dpages)
+  /\ UNCHANGED <<cvars, explicit>>
+
 \* a page write: only once the recovery flag is durable (begin_writable has been synced)
 TPage == Ev("page") /\ dgod.rec /\ WritePage /\ UNCHANGED explicit
 
@@ -120,18 +145,22 @@ HdrSwap == Swap /\ HdrIs(hdr', Line.h)
 
 HdrAsIs == AsIs(Line.h.rec) /\ HdrIs(hdr', Line.h)
 
+\* the header writes of a recovery
+HdrRecovery == (RFinalize \/ RVerifyClear \/ RSlot \/ RSwap \/ RQuick) /\ HdrIs(hdr', Line.h)
+
 THdr ==
   /\ Ev("hdr")
-  /\ HdrOne("1pc") \/ HdrOne("2pc") \/ HdrMerged \/ HdrSwap \/ HdrAsIs
+  /\ HdrOne("1pc") \/ HdrOne("2pc") \/ HdrMerged \/ HdrSwap \/ HdrAsIs \/ HdrRecovery
   /\ UNCHANGED explicit
 
 TSync ==
   /\ Ev("sync")
-  /\ Sync1 \/ Sync2 \/ PreSync \/ IdleSync
+  /\ IF cur.kind = "rec" THEN RFinalSync \/ RClearSync \/ RSync1 \/ RSync2
+     ELSE Sync1 \/ Sync2 \/ PreSync \/ IdleSync
   /\ UNCHANGED explicit
 
 TraceInit == Init /\ l = 1 /\ explicit = FALSE
-TraceNext == TReset \/ TPage \/ TSetLen \/ TClose \/ TCBegin \/ TCEnd \/ TMark \/ THdr \/ TSync
+TraceNext == TReset \/ TRReset \/ TROpen \/ TPage \/ TSetLen \/ TClose \/ TCBegin \/ TCEnd \/ TMark \/ THdr \/ TSync
 TraceSpec == TraceInit /\ [][TraceNext]_tvars
 
 TraceAccepted ==
